@@ -131,6 +131,101 @@ fn first_break_value(single_if_stmts: &Vec<Statement>) -> (r: &Expression)
       r is Some && e2 is Variable ==> !non_loop_invariant_variables@.contains(e2->Variable_0.name),  // :guard_bound_is_loop_invariant
 //@end
 
+// ---- the guard's comparison statement is not kept by the rewrite (extract_optimizable_while_loop rebuilds the guard under a
+// fresh name): a loop is taken only if nothing after the guard reads the comparison's result.  The check in front of phase 2,
+// verbatim as an R14 block; collect_use_from_expression verbatim; collect_use_from_stmts (dead_code_elimination.rs, a plain
+// recursive walk) by its contract: it adds the names the statements read (listed as assumed).
+//@extract crates/samlang-ast/src/mir.rs :: struct GenenalLoopVariable
+//@end
+//@extract crates/samlang-ast/src/mir.rs :: struct Binary
+//@replace hir::BinaryOperator => BinaryOperator ## R1: module path of the extracted enum
+//@end
+
+/// the variable an operand reads, if it is a variable
+spec fn used_name(e: Expression) -> Option<PStr> {
+  match e { Expression::Variable(v) => Some(v.name), _ => None }
+}
+//@extract crates/samlang-optimization/src/dead_code_elimination.rs :: fn collect_use_from_expression
+//@contract
+  requires
+    vstd::std_specs::hash::obeys_key_model::<PStr>(),
+  ensures
+    final(set)@ == (match used_name(*expression) { Some(n) => old(set)@.insert(n), None => old(set)@ }),  // :records_exactly_the_variable_read
+//@end
+
+/// the names a statement list reads (R7: Statement is opaque here)
+uninterp spec fn names_read_by(stmts: Seq<Statement>) -> Set<PStr>;
+/// `SingleIf { statements, .. }`: the statements under the if; None for any other statement
+uninterp spec fn single_if_body(s: Statement) -> Option<Seq<Statement>>;
+/// `Binary(b)`: the binary statement; None for any other statement
+uninterp spec fn binary_of(s: Statement) -> Option<Binary>;
+
+/// R3: dead_code_elimination::collect_use_from_stmts — adds the names the statements read
+#[verifier::external_body]
+fn collect_use_from_stmts(stmts: &[Statement], set: &mut HashSet<PStr>)
+  ensures final(set)@ == old(set)@.union(names_read_by(stmts@))
+{ unimplemented!() }
+/// R3: Statement::as_single_if (derived by EnumAsInner)
+#[verifier::external_body]
+fn as_single_if(s: &Statement) -> (r: Option<(&Expression, &bool, &Vec<Statement>)>)
+  ensures
+    r is Some == single_if_body(*s) is Some,
+    r matches Some(t) ==> t.2@ == single_if_body(*s)->Some_0,
+{ unimplemented!() }
+/// R3: Statement::as_binary (derived by EnumAsInner)
+#[verifier::external_body]
+fn as_binary(s: &Statement) -> (r: Option<&Binary>)
+  ensures
+    r is Some == binary_of(*s) is Some,
+    r matches Some(b) ==> *b == binary_of(*s)->Some_0,
+{ unimplemented!() }
+/// R3: `&stmts[2..]`
+#[verifier::external_body]
+fn statements_after_the_guard(stmts: &Vec<Statement>) -> (r: &[Statement])
+  requires stmts@.len() >= 2,
+  ensures r@ == stmts@.subrange(2, stmts@.len() as int),
+{ unimplemented!() }
+
+/// the names the next-iteration values of the first n loop variables read
+spec fn names_read_by_loop_values(lvs: Seq<GenenalLoopVariable>, n: int) -> Set<PStr>
+  decreases n
+{
+  if n <= 0 { Set::empty() } else {
+    let before = names_read_by_loop_values(lvs, n - 1);
+    match used_name(lvs[n - 1].loop_value) { Some(x) => before.insert(x), None => before }
+  }
+}
+/// everything that runs after the guard `stmts[0]; stmts[1]` of a loop reads: the statements under the guard's if (the break
+/// value), the rest of the body, the next-iteration values
+spec fn names_read_after_the_guard(lvs: Seq<GenenalLoopVariable>, stmts: Seq<Statement>) -> Set<PStr> {
+  (match single_if_body(stmts[1]) { Some(b) => names_read_by(b), None => Set::empty() })
+    .union(names_read_by(stmts.subrange(2, stmts.len() as int)))
+    .union(names_read_by_loop_values(lvs, lvs.len() as int))
+}
+
+//@extractblock crates/samlang-optimization/src/loop_induction_analysis.rs :: fn extract_optimizable_while_loop
+//@from let mut used_after_guard = HashSet::new();
+//@to return Err((loop_variables, stmts, original_break_collector)); }
+//@replace stmts[1].as_single_if() => as_single_if(&stmts[1]) ## R3: EnumAsInner accessor of the opaque Statement
+//@replace stmts[0].as_binary().is_some_and(|guard| used_after_guard.contains(&guard.name)) => (match as_binary(&stmts[0]) { Some(guard) => used_after_guard.contains(&guard.name), None => false }) ## R18: Option::is_some_and(f) written as std defines it (`match self { None => false, Some(x) => f(x) }`); as_binary is the EnumAsInner accessor of the opaque Statement (R3)
+//@replace dead_code_elimination::collect_use_from_stmts(guard_stmts, &mut used_after_guard); => collect_use_from_stmts(guard_stmts.as_slice(), &mut used_after_guard); ## R9: the deref coercion &Vec<T> -> &[T] written as Vec::as_slice
+//@replace dead_code_elimination::collect_use_from_stmts(&stmts[2..], &mut used_after_guard); => let ghost under_the_if = used_after_guard@; collect_use_from_stmts(statements_after_the_guard(&stmts), &mut used_after_guard); let ghost before_the_loop_values = used_after_guard@; ## R3: the slice `&stmts[2..]`; R8: ghost snapshots
+//@replace dead_code_elimination::collect_use_from_expression( => collect_use_from_expression( ## R1: module path
+//@replace for v in &loop_variables { ==>> for v in it: loop_variables.iter() invariant vstd::std_specs::hash::obeys_key_model::<PStr>(), it.seq().len() == loop_variables@.len(), forall|j: int| 0 <= j < loop_variables@.len() ==> *(#[trigger] it.seq()[j]) == loop_variables@[j], used_after_guard@ == before_the_loop_values.union(names_read_by_loop_values(loop_variables@, it.index() as int)), { ## R9: IntoIterator for &Vec is Vec::iter; R8: ghost iterator name and loop invariant
+//@replace return Err((loop_variables, stmts, original_break_collector)); => return true; ## R14: the block's early exit (the loop is handed back unchanged) becomes the result `true`
+//@wrap fn guard_result_is_read_after_the_guard(loop_variables: Vec<GenenalLoopVariable>, stmts: Vec<Statement>) -> (given_back: bool)
+//@contract
+    requires
+      vstd::std_specs::hash::obeys_key_model::<PStr>(),
+      stmts@.len() >= 2,
+    ensures
+      // a loop goes on to the rewrite only if the result of the guard's comparison is read nowhere after the guard
+      !given_back ==> (binary_of(stmts@[0]) matches Some(guard) ==> !names_read_after_the_guard(loop_variables@, stmts@).contains(guard.name)),  // :guard_result_is_not_read_after_the_guard
+      given_back ==> binary_of(stmts@[0]) is Some,
+//@atend
+  false
+//@end
+
 proof fn canary_must_fail_loopguard() ensures false {}
 
 } // verus!
